@@ -66,7 +66,7 @@ TInit ==
     /\ InitFor(1)
     /\ l = 1
     /\ skip = TRUE
-    /\ case = [case |-> 0, exec |-> "none", chart |-> 1, resumed |-> FALSE, api |-> FALSE]
+    /\ case = [case |-> 0, exec |-> "none", chart |-> 1, resumed |-> FALSE, api |-> FALSE, settle |-> 0]
 
 TReset ==
     /\ Line.k = "reset"
@@ -77,7 +77,8 @@ TReset ==
     /\ ret' = "INSTANTIATED"
     /\ rootEntries' = 0
     /\ skip' = FALSE
-    /\ case' = [case |-> Line.case, exec |-> Line.exec, chart |-> Line.chart, resumed |-> FALSE, api |-> Line.mode = "api"]
+    /\ case' = [case |-> Line.case, exec |-> Line.exec, chart |-> Line.chart, resumed |-> FALSE, api |-> Line.mode = "api",
+                settle |-> IF "settle" \in DOMAIN Line THEN Line.settle ELSE 0]
     /\ l' = l + 1
 
 PropOf(p) == IF case.api /\ p \in {"C01", "C07"} THEN "C10"
@@ -96,10 +97,26 @@ GencRet(r) == CASE r = "MICROSTEPPED" -> "OK" [] r = "MACROSTEPPED" -> "OK" [] r
 
 Coarse == case.exec \in {"genc"}
 
+(* A delayed <send> fires on the timer thread; the recording sees it only when the event is   *)
+(* dequeued.  If the recorded call dequeues an external event that is not at the head of the  *)
+(* specification's external queue but is pending as delayed, its timer has fired (EnvFire):   *)
+(* it may have fired before anything that was received since, so it goes to the head.         *)
+FiredState(S, atoms) ==
+    LET ds == SelectSeq(atoms, LAMBDA a : a.a = "deq" /\ a.v = 1)
+    IN  IF Len(ds) = 0 \/ Len(S.m.dq) = 0 THEN S
+        ELSE LET x == ds[1].x
+                 is == {i \in 1..Len(S.m.dq) : S.m.dq[i].name = x}
+             IN  IF is # {} /\ (S.m.eq = <<>> \/ Head(S.m.eq).name # x)
+                 THEN LET i == CHOOSE j \in is : \A k \in is : j <= k
+                      IN  [S EXCEPT !.m.dq = SubSeq(@, 1, i - 1) \o SubSeq(@, i + 1, Len(@)),
+                                    !.m.eq = <<S.m.dq[i]>> \o @]
+                 ELSE S
+
 TStep ==
     /\ Line.k = "call" /\ Line.op = "step" /\ ~skip
     /\ LET r0   == IF case.exec = "pml" THEN StepUntilQuiescent(C, Cur, <<>>, 120)
-                   ELSE IF Coarse THEN StepUntilEffective(C, Cur, <<>>, 60) ELSE StepResult
+                   ELSE IF Coarse THEN StepUntilEffective(C, Cur, <<>>, 60)
+                   ELSE StepOf(C, FiredState(Cur, Line.atoms))
            r    == IF Coarse THEN [r0 EXCEPT !.ret = GencRet(@)] ELSE r0
            exp  == Project(case.exec, r.m.atoms)
            got  == Project(case.exec, Line.atoms)
@@ -171,9 +188,15 @@ TEnd ==
            bound == {n \in DOMAIN m.dm : m.dm[n].def}
            dmExp == {<<n, TRUE, m.dm[n].v>> : n \in bound}
            badDm == ~badExit /\ Line.dm # <<>> /\ ~(dmExp \subseteq dmGot)
+           \* the recording waited (settle) far longer than any delay: a delayed event still pending
+           \* in a running machine was lost (never delivered); finished machines discard theirs
+           lost  == ~badExit /\ case.settle > 0 /\ life = "running" /\ ~Line.limit
+                    /\ "settled" \in DOMAIN Line /\ Line.settled
+                    /\ Len(m.dq) > 0
        IN  /\ (badExit => Report(Verdict("C07", "exit", "ok", Line.exit, <<>>)))
            /\ (badDm => Report(Verdict("C01", "data", dmExp, dmGot, <<>>)))
-           /\ (Strict => ~badExit /\ ~badDm)
+           /\ (lost => Report(Verdict("C01", "delayed-event-lost", [i \in 1..Len(m.dq) |-> m.dq[i].name], <<>>, <<>>)))
+           /\ (Strict => ~badExit /\ ~badDm /\ ~lost)
     /\ skip' = TRUE
     /\ UNCHANGED <<vars, case>>
     /\ l' = l + 1
